@@ -1355,7 +1355,8 @@ static int32_t write_literal(void *context, const char *text, int length, int wr
  */
 static int32_t write_uliteral(void *context, const UChar *text, int length, int wrap) {
     if (length < 0) {
-        length = u_countChar32(text, -1);
+        /* the length is used as a count of UChar units, not of code points */
+        length = u_strlen(text);
     }
 
     if (length == 0) {
